@@ -243,7 +243,7 @@ def show(n, depth=0, maxdepth=6):
     if k == "lit":
         if n["t"] == "bool":
             return "true" if n["v"] else "false"
-        return repr(n["v"]) if n["t"] == "str" else str(n["v"])
+        return repr(n["v"]) if n["t"] in ("str", "char") else str(n["v"])
     if k in ("path", "p_path"):
         return n["p"]
     if k == "call":
